@@ -54,6 +54,29 @@ def build_cases(tr, mode):
             else:
                 d2 = d
             cases.append((s, -1, d2, p))
+    # profiles on either side of every layout threshold that only larger databases reach, found by TLC (MC_Boundaries)
+    bcfgs = [("CJJ14.PiPtr", dict(sc.default_config("CJJ14.PiPtr"), param_B=1, param_b=16), 300),
+             ("CJJ14.Pi2Lev", dict(sc.default_config("CJJ14.Pi2Lev"), param_B=4, param_b=4, param_B_prime=4, param_b_prime=4), 80),
+             ("ANSS16.Scheme3", sc.default_config("ANSS16.Scheme3"), 300 if tr == "quick" else 1100),
+             ("CT14.Pi", sc.default_config("CT14.Pi"), 300 if tr == "quick" else 1100),
+             ("DP17.Pi", sc.default_config("DP17.Pi"), 300),
+             ("DP17.Pi", dict(sc.default_config("DP17.Pi"), param_L=2, param_actual_storage_level_ratio=0.5), 300),
+             ("CGKO06.SSE1", dict(sc.default_config("CGKO06.SSE1"), param_s=512, param_dictionary_size=16), 300)]
+    if tr == "thorough":
+        bcfgs.append(("CJJ14.Pi2Lev", sc.default_config("CJJ14.Pi2Lev"), 4200))
+        bcfgs.append(("CJJ14.PiPtr", dict(sc.default_config("CJJ14.PiPtr"), param_B=2, param_b=16), 600))
+    nb = 0
+    for s, cfg, maxn in bcfgs:
+        bs, r = se.model_boundaries(s, cfg, maxn)
+        model["distinct"] += r.distinct or 0
+        model["generated"] += r.generated or 0
+        model["runs"].append({"module": "MC_Boundaries", "scheme": s, "max_n": maxn, "boundary_profiles": len(bs)})
+        for p in bs:
+            if sum(p) <= 9000:
+                cases.append((s, -2, cfg, p))
+                nb += 1
+    if nb == 0:
+        raise MachineryError("MC_Boundaries found no threshold at all")
     if tr == "thorough":
         # Pi2Lev's large (two-level pointer) case at the default B = 64 needs more than 4096 postings
         cases.append(("CJJ14.Pi2Lev", -1, sc.default_config("CJJ14.Pi2Lev"), [4200, 70, 3]))
@@ -93,6 +116,8 @@ def run(tr, mode, prop, replay_path=None):
     for i, r in enumerate(recs):
         v = verdicts["k%d" % i]
         if not v["ok"]:
+            if v["clause"] == "ValidDomain":
+                raise MachineryError("the harness submitted a database outside the valid domain: %s %s" % (r["scheme"], r["p"]))
             rej.append({"key": "%s:%s" % (r["scheme"], v["clause"]), "rec": r, "verdict": v})
         elif v["clause"] == "DRIFT":
             drift.append({"scheme": r["scheme"], "p": r["p"], "shape": r["shape"]})
